@@ -1,8 +1,7 @@
-(* Correspondence glue for C15: one case = (Epname filter, all types in sort.Strings order, what the real
-   GenerateDataView printed, parsed back into items; None = it panicked). *)
-From Coq Require Import List PeanoNat PArith Bool.
+(* Correspondence glue for C15. *)
+From Coq Require Import List PeanoNat PArith ZArith Bool.
 Import ListNotations.
-Require Import Verif.DataModel.DmShapeTypes Verif.DataModel.DmModel Verif.DataModel.DmCurrent Verif.Base.Harness.
+Require Import Verif.DataModel.DmShapeTypes Verif.DataModel.DmModel Verif.DataModel.DmCurrent Verif.DataModel.DmWrap Verif.Base.Harness.
 
 Definition str_eq_dec : forall a b:str, {a = b} + {a <> b} := list_eq_dec Pos.eq_dec.
 Definition card_eq_dec : forall a b:card, {a = b} + {a <> b}. Proof. decide equality. Defined.
@@ -19,13 +18,36 @@ Proof.
     try apply flabel_eq_dec; try apply card_eq_dec; apply Bool.bool_dec.
 Defined.
 
-Definition c15_case := (option atom * list entity * option (list item))%type.
+(* one case = (the invocation of `sysl datamodel` as DmWrap.winput, the output name looked at, all types in
+   sort.Strings order, the sorted names of the files the real GenerateDataModels returned (None = error or panic),
+   the diagram stored under the name looked at, parsed back into items (None = no such file / panic)) *)
+Definition c15_case := (winput * outname * list entity * option (list outname) * option (list item))%type.
+
+Fixpoint insert_pos (x:positive) (l:list positive) : list positive :=
+  match l with
+  | [] => [x]
+  | y :: l' => if Pos.eqb x y then l else if Pos.ltb x y then x :: l else y :: insert_pos x l'
+  end.
+Definition sort_keys (l:list positive) : list positive := fold_right insert_pos [] l.
+
+Definition is_ok {A} (o:outcome A) : bool := match o with Ok _ => true | Panic _ => false end.
 
 Definition c15_ok (c:c15_case) : bool :=
-  match c with (filt, es, obs) =>
-    match draw filt es, obs with
-    | Ok o, Some o' => if list_eq_dec item_eq_dec o o' then true else false
-    | Panic _, None => true
-    | _, _ => false
+  match c with (w, key, es, okeys, obs) =>
+    match gen_models w with
+    | None => match okeys, obs with None, None => true | _, _ => false end
+    | Some m =>
+        if forallb (fun kv => is_ok (draw (snd kv) es)) m          (* every view is drawn; one panic ends the command *)
+        then match okeys with
+             | Some ks =>
+                 (if list_eq_dec Pos.eq_dec (sort_keys (wkeys m)) ks then true else false) &&
+                 match wlookup key m, obs with
+                 | Some filt, Some o' => match draw filt es with Ok o => if list_eq_dec item_eq_dec o o' then true else false | Panic _ => false end
+                 | None, None => true
+                 | _, _ => false
+                 end
+             | None => false
+             end
+        else match okeys, obs with None, None => true | _, _ => false end
     end
   end.
